@@ -372,6 +372,94 @@ def judge_poly(inst):
     return viols, p0 != p1
 
 
+def poly_reference(ploidy, p0, p1):
+    """definitions for one polyploid block: p0[j] / p1[j] = alleles per haplotype at variant j.
+    Returns (diff_genotypes, hamming or None, switches, switch+flip total or None)."""
+    n = len(p0)
+    h0 = [[p0[j][i] for j in range(n)] for i in range(ploidy)]
+    h1 = [[p1[j][i] for j in range(n)] for i in range(ploidy)]
+    match = [j for j in range(n) if sorted(p0[j]) == sorted(p1[j])]
+    perms = list(itertools.permutations(range(ploidy)))
+    INF = 10**9
+    # switch errors on the positions with matching genotypes only
+    sw = 0.0
+    if match:
+        cur = None
+        for j in match:
+            nxt = {}
+            for pi in perms:
+                if not all(h0[pi[i]][j] == h1[i][j] for i in range(ploidy)):
+                    nxt[pi] = INF
+                elif cur is None:
+                    nxt[pi] = 0
+                else:
+                    nxt[pi] = min(cur[pj] + sum(1 for i in range(ploidy) if pi[i] != pj[i]) for pj in perms)
+            cur = nxt
+        sw = min(cur.values()) / ploidy
+    hm = tot = None
+    if len(match) == n:
+        hm = min(sum(ham(h1[i], h0[pi[i]]) for i in range(ploidy)) for pi in perms) / ploidy
+        cur = {pi: sum(1 for i in range(ploidy) if h0[pi[i]][0] != h1[i][0]) for pi in perms}
+        for j in range(1, n):
+            nxt = {}
+            for pi in perms:
+                fl = sum(1 for i in range(ploidy) if h0[pi[i]][j] != h1[i][j])
+                nxt[pi] = fl + min(cur[pj] + sum(1 for i in range(ploidy) if pi[i] != pj[i]) for pj in perms)
+            cur = nxt
+        tot = min(cur.values()) / ploidy
+    return n - len(match), hm, sw, tot
+
+
+def judge_polyfn(inst):
+    """function-level slice: whatshap.cli.compare.compare_block on every second phasing for one first phasing"""
+    from whatshap.cli.compare import compare_block
+
+    ploidy, p0 = inst["ploidy"], [tuple(a) for a in inst["p0"]]
+    n = len(p0)
+    viols = []
+    cnt = nt = 0
+    arrs = {}
+    for col in p0:
+        key = tuple(sorted(col))
+        arrs[key] = sorted(set(itertools.permutations(key)))
+    cols1 = []
+    for j, col in enumerate(p0):
+        opts = list(arrs[tuple(sorted(col))])
+        if inst.get("dosage_variants"):
+            # also columns whose genotype differs from the first file (other dosage)
+            for d in range(1, ploidy):
+                base = tuple([1] * d + [0] * (ploidy - d))
+                if tuple(sorted(base)) != tuple(sorted(col)):
+                    opts.append(base)
+        cols1.append(opts)
+    s0 = ["".join(str(p0[j][i]) for j in range(n)) for i in range(ploidy)]
+    for p1 in itertools.product(*cols1):
+        cnt += 1
+        s1 = ["".join(str(p1[j][i]) for j in range(n)) for i in range(ploidy)]
+        try:
+            e = compare_block(s0, s1)
+        except Exception as ex:  # noqa
+            viols.append({"clause": "poly-error", "signature": "c11:poly-error", "detail": f"compare_block({s0}, {s1}) raised {type(ex).__name__}: {ex}", "instance": dict(inst, p1=[list(a) for a in p1])})
+            continue
+        dg, hm, sw, tot = poly_reference(ploidy, p0, p1)
+        bad = []
+        if e.diff_genotypes != dg:
+            bad.append(f"different genotypes {e.diff_genotypes} != {dg}")
+        if abs(float(e.switches) - sw) > 1e-9:
+            bad.append(f"switch errors {e.switches}, brute force over permutation sequences on the matching positions {sw}")
+        if hm is not None:
+            if abs(float(e.hamming) - hm) > 1e-9:
+                bad.append(f"Hamming {e.hamming}, minimum over correspondences {hm}")
+            if abs(e.switch_flips.switches + e.switch_flips.flips - tot) > 1e-9:
+                bad.append(f"switch/flip {e.switch_flips} sums to {e.switch_flips.switches + e.switch_flips.flips}, minimum total {tot}")
+            if sw > 0:
+                nt += 1
+        if bad and len(viols) < 4:
+            clause = "poly-switches-partial-match" if (dg and "switch errors" in bad[-1] or (dg and any("switch errors" in b for b in bad))) else "poly-definition"
+            viols.append({"clause": clause, "signature": "c11:" + clause, "detail": "; ".join(bad) + f" ({s0} vs {s1})", "instance": dict(inst, p1=[list(a) for a in p1])})
+    return viols, cnt, nt
+
+
 def selftest():
     for n in range(2, 7):
         for h0 in itertools.product((0, 1), repeat=n):
@@ -421,7 +509,28 @@ def space(tier):
             for b in group:
                 for c in group if (T or group is m2) else group[::2]:
                     yield {"kind": "multi", "p": [list(a), list(b), list(c)]}
-    # polyploid, one block
+    # polyploid, function level (compare_block): every first phasing up to haplotype order x every second phasing
+    for ploidy, n in ((3, 2), (3, 3), (3, 4), (4, 2), (4, 3)) + (((3, 5), (4, 4)) if T else ()):
+        arr = []
+        for dosage in range(1, ploidy):
+            base = [1] * dosage + [0] * (ploidy - dosage)
+            arr += sorted(set(itertools.permutations(base)))
+        seen = set()
+        firsts = []
+        for p0 in itertools.product(arr, repeat=n):
+            rows = tuple(sorted(tuple(p0[j][i] for j in range(n)) for i in range(ploidy)))
+            if rows in seen:
+                continue
+            seen.add(rows)
+            firsts.append(p0)
+        budget = {(4, 3): 40, (4, 4): 60, (3, 5): 200}.get((ploidy, n))
+        if budget and not T:
+            firsts = firsts[:: max(1, len(firsts) // budget)]
+        elif budget:
+            firsts = firsts[:: max(1, len(firsts) // (budget * 4))]
+        for p0 in firsts:
+            yield {"kind": "polyfn", "ploidy": ploidy, "p0": [list(a) for a in p0], "dosage_variants": n <= 3 and ploidy == 3}
+    # polyploid, one block, through the files (binds the command line to compare_block)
     for ploidy, nmax in ((3, 3), (4, 2)) + (((3, 4), (4, 3)) if T else ()):
         arr = []
         for dosage in range(1, ploidy):
@@ -444,6 +553,9 @@ def run_one(inst):
         viols, nt = judge_invariance(inst)
     elif k == "multi":
         viols, nt = judge_multi(inst)
+    elif k == "polyfn":
+        viols, cnt, nt = judge_polyfn(inst)
+        return Result(n=cnt, nontrivial=nt, violations=viols[:3], outcome=(k, bool(viols)))
     else:
         viols, nt = judge_poly(inst)
     return Result(nontrivial=nt, violations=viols[:3], outcome=(k, bool(viols)))
